@@ -109,3 +109,23 @@ func verifLemma_C07_delete_absent(a, b, k int) {
 	t.DeleteKey(k)
 	verifHelper_C07_inorder(t, 2)
 }
+
+// An iterator that is open while the list changes continues in order, does not
+// return a value deleted before it was reached, and returns a value inserted ahead
+// of it.
+func verifLemma_C07_iterator_survives_edits(a, b, c, d int) {
+	verifrt.Assume(a < b && b < c && c < d)
+	t := newTreeList(vIntValues{})
+	t.Insert(b)
+	t.Insert(a)
+	t.Insert(d)
+	it := t.Begin()
+	verifrt.Assert(it.Next() && it.Value().(int) == a, "first")
+	t.DeleteKey(a) // the value the iterator is on
+	t.Insert(c)    // ahead of the iterator
+	verifrt.Assert(it.Next() && it.Value().(int) == b, "continues-after-its-value-was-deleted")
+	t.DeleteKey(d) // not reached yet
+	verifrt.Assert(it.Next() && it.Value().(int) == c, "sees-value-inserted-ahead")
+	verifrt.Assert(!it.Next(), "does-not-return-deleted-value")
+	verifrt.Assert(t.Validate() && t.Len() == 2, "tree-still-valid")
+}
